@@ -876,7 +876,8 @@ RULE_DOC["R92"] = rule_R92.__doc__.strip()
 def rule_R93(text, names, stats):
     """(`#! use UNIT without=F1,F2`) in the raw text imported from UNIT every top-level `impl .. { .. }` block that declares
     `fn F` for a listed F is dropped: UNIT assumed F through a hand-written stub, the importing unit proves the real F
-    (listed there with `#! fn`), and the two definitions would clash"""
+    (listed there with `#! fn`), and the two definitions would clash.  Extension (unit sel3, implemented in build/process): a listed F
+    also suppresses the generated stub of a `#! fn ..::F` of UNIT, and the list is inherited by the `#! use` imports nested in UNIT"""
     code = _toks(text)
     spans = []
     depth = 0
